@@ -8,6 +8,7 @@ import SlogModel.Model.Pack
 import SlogModel.Model.Client
 import SlogModel.Model.Buffer
 import SlogModel.Model.Disk
+import SlogModel.Model.Reload
 import SlogModel.Gen.Facts
 import Driver.Util
 import Driver.XformParse
@@ -431,6 +432,58 @@ def handleDisk (st : DState) : List String → DState × String
     ({ st with diskFS := fs }, s!"fwd={j fwd} dropped={corrupt.length + unread.length} ioerr={unread.length} left={showFS fs}")
   | _ => (st, "bad-op")
 
+
+/-! reload -/
+
+def showEv : Reload.Ev → String
+  | .newSink sid g n => s!"ns:{sid}:{g}:{n}"
+  | .accept sid r => s!"ac:{sid}:{r}"
+  | .tick sid => s!"tk:{sid}"
+  | .close sid => s!"cl:{sid}"
+  | .shutdown g => s!"sd:{g}"
+  | .started g => s!"st:{g}"
+  | .reloadFailed => "rf"
+
+def parseEv (t : String) : Option Reload.Ev :=
+  match t.splitOn ":" with
+  | ["ns", a, b, c] => do some (.newSink (← a.toNat?) (← b.toNat?) (← c.toNat?))
+  | ["ac", a, b] => do some (.accept (← a.toNat?) (← b.toNat?))
+  | ["tk", a] => a.toNat?.map .tick
+  | ["cl", a] => a.toNat?.map .close
+  | ["sd", a] => a.toNat?.map .shutdown
+  | ["st", a] => a.toNat?.map .started
+  | ["rf"] => some .reloadFailed
+  | _ => none
+
+def parseActs (t : String) : Option (List Reload.Act) :=
+  match t.splitOn ":" with
+  | ["o", n] => n.toNat?.map (fun n => [.connect n, .register n])
+  | ["a", n, r] => do some [.accept (← n.toNat?) (← r.toNat?)]
+  | ["t", n] => n.toNat?.map (fun n => [.tick n])
+  | ["x", n] => n.toNat?.map (fun n => [.closeSink n, .closeSocket n])
+  | ["R"] => some [.reload]
+  | ["F"] => some [.reloadFail]
+  | ["ov"] => some []      -- "ov A | B": A is held inside its first downstream call while B starts; the lock serialises them as A;B
+  | ["|"] => some []
+  | _ => none
+
+def handleReload : List String → String
+  | "run" :: toks =>
+    match toks.mapM parseActs with
+    | some acts =>
+      match Reload.run {} acts.flatten with
+      | some s =>
+        let evs := s.hist.map showEv
+        let b := if s.bad.isEmpty then "" else " BAD:" ++ "|".intercalate (s.bad.map (fun x => x.replace " " "_"))
+        (if evs.isEmpty then "-" else " ".intercalate evs) ++ b
+      | none => "not-enabled"
+    | none => "bad-op"
+  | "trace" :: toks =>
+    match toks.mapM parseEv with
+    | some evs => match Reload.checkTrace evs with | none => "ok" | some why => "violates " ++ why
+    | none => "bad-op"
+  | _ => "bad-op"
+
 /-! client trace monitor -/
 
 def natList (t : String) : Option (List Nat) :=
@@ -491,6 +544,7 @@ def handle (st : DState) (line : String) : DState × String :=
   | "buf" :: rest => handleBuf st rest
   | "bufr" :: _ => (st, "any")   -- racy start (accept right after Start): judged by the harness oracle only
   | "disk" :: rest => handleDisk st rest
+  | "reload" :: rest => (st, handleReload rest)
   | ["redact", h] =>
     match unhex h with
     | none => (st, "bad-op")
